@@ -44,5 +44,19 @@ PROPS["C13"] = {
     "technique": "runtime monitoring: differential oracle (RFC 8259 recogniser) over bounded-exhaustive, mutated and generated inputs",
 }
 
+PROPS["C02"] = {
+    "level": "exploration",
+    "engines": [
+        {"bin": "hv", "args": ["c02"]},
+        {"bin": "hvt", "args": ["c02"]},
+    ],
+    "min": {"quick": {"requests": 2_500, "parses": 300_000, "requests_over_20_fields": 100, "requests_with_xff": 300},
+            "thorough": {"requests": 50_000}},
+    "assumptions": [],
+    "level_text": "Generated well-formed requests are parsed by the real parser under every read plan (whole, bytewise, every split point, random multi-split) and compared field by field with the generating model; the serialisation is judged by a strict reference reader and re-parsed.",
+    "level_note": "Trusted: the request generator/model (hvcommon::reqgen) and the strict HTTP reference reader (hvcommon::httpref).",
+    "technique": "runtime monitoring: model-based oracle over generated inputs x read-segmentation plans, metamorphic round-trip",
+}
+
 # properties without a check, with the reason (kept current)
 NOT_CLAIMED = {}
